@@ -60,7 +60,11 @@ def quad(
         method = "leggauss"
     fwd_options["method"] = method
 
-    out = fcn(xl, *params)
+    # the integrand is always evaluated at tensors (the quadrature points), so
+    # probe its output with a tensor as well, even if the limits are python numbers
+    xprobe = xl if isinstance(xl, torch.Tensor) else \
+        torch.as_tensor(xl, dtype=torch.get_default_dtype())
+    out = fcn(xprobe, *params)
     if isinstance(out, torch.Tensor):
         dtype = out.dtype
         device = out.device
